@@ -180,6 +180,10 @@ class MemFilestore(VirtualFilestore):
         k = _k(file_path)
         if int(checksum_type) == 15:
             return b"\0\0\0\0"
+        if int(checksum_type) not in (0, 2, 3):
+            from cfdppy.exceptions import ChecksumNotImplemented
+
+            raise ChecksumNotImplemented(checksum_type)  # what the interface documents for unsupported types
         if k not in self.files:
             raise FileNotFoundError(file_path)
         return ref_checksum(int(checksum_type), bytes(self.files[k][:size_to_verify]))
